@@ -275,7 +275,7 @@ def run(ctx):
 
     # ---- last ascending node, all representations
     items, metas = [], []
-    n_node = ctx.n(6, 40)
+    n_node = ctx.n(14, 150)
     for ti in range(n_node):
         tle = tlegen.NOAA18 if ti == 0 else gen_tle(rng, drag_free=(ti % 2 == 0))
         try:
@@ -316,7 +316,7 @@ def run(ctx):
 
     # ---- orbit numbers, crossing times, cache
     floats = []
-    for ti in range(ctx.n(3, 16)):
+    for ti in range(ctx.n(5, 50)):
         tle = gen_tle(rng, drag_free=True)
         if ctx.quick:
             # quick tier: exactly one element set from the known eccentric / near-equatorial class, the others outside it
@@ -329,8 +329,12 @@ def run(ctx):
             make_orb(tle)
         except Exception:
             continue
-        orbit_number_checks(ctx, rng, tle, ti, floats)
-        cache_checks(ctx, rng, tle, ti)
+        try:
+            orbit_number_checks(ctx, rng, tle, ti, floats)
+            cache_checks(ctx, rng, tle, ti)
+        except common.Timeout as e:
+            ctx.violation("get_orbit_number / get_equatorial_crossing_time did not return (%s)" % e,
+                          {"signature": "C11:orbit:%d:hang" % ti, **pub(tle)})
     # a rev-0 element set: negative continuous numbers, truncation toward zero
     tle0 = gen_tle(rng, drag_free=True, rev=0)
     orb0 = make_orb(tle0)
